@@ -225,6 +225,25 @@ fn gen_records(r: &mut Rng, kinds: &[Kind], input_len: usize, me: usize) -> Vec<
         .collect()
 }
 
+/// glyph sequence of a rule (input after the first glyph, backtrack, lookahead): short, mostly hot glyphs
+fn gen_rule_seq(r: &mut Rng, g: &G0, input: bool) -> Vec<u16> {
+    let k = if input {
+        match r.below(20) { 0..=5 => 0, 6..=14 => 1, 15..=18 => 2, _ => 3 }
+    } else {
+        match r.below(10) { 0..=4 => 0, 5..=8 => 1, _ => 2 }
+    };
+    (0..k).map(|_| if r.chance(9, 10) { r.range(1, g.hot as u64) as u16 } else { pick_glyph(r, g) }).collect()
+}
+
+fn gen_rule_classes(r: &mut Rng, input: bool) -> Vec<u16> {
+    let k = if input {
+        match r.below(20) { 0..=5 => 0, 6..=14 => 1, 15..=18 => 2, _ => 3 }
+    } else {
+        match r.below(10) { 0..=4 => 0, 5..=8 => 1, _ => 2 }
+    };
+    (0..k).map(|_| r.below(4) as u16).collect()
+}
+
 fn gen_seq(r: &mut Rng, g: &G0, lo: u64, hi: u64) -> Vec<u16> {
     let k = r.range(lo, hi);
     (0..k).map(|_| pick_glyph(r, g)).collect()
@@ -294,7 +313,7 @@ fn gen_subtable(r: &mut Rng, g: &G0, kind: Kind, kinds: &[Kind], me: usize) -> S
                         let k = if r.chance(1, 10) { 0 } else { r.range(1, 3) };
                         (0..k)
                             .map(|_| {
-                                let input = gen_seq(r, g, 0, 3);
+                                let input = gen_rule_seq(r, g, true);
                                 let lookups = gen_records(r, kinds, input.len(), me);
                                 SeqRule { input, lookups }
                             })
@@ -314,7 +333,7 @@ fn gen_subtable(r: &mut Rng, g: &G0, kind: Kind, kinds: &[Kind], me: usize) -> S
                             Some(
                                 (0..r.range(1, 3))
                                     .map(|_| {
-                                        let input: Vec<u16> = (0..r.range(0, 3)).map(|_| r.below(4) as u16).collect();
+                                        let input = gen_rule_classes(r, true);
                                         let lookups = gen_records(r, kinds, input.len(), me);
                                         SeqRule { input, lookups }
                                     })
@@ -341,9 +360,9 @@ fn gen_subtable(r: &mut Rng, g: &G0, kind: Kind, kinds: &[Kind], me: usize) -> S
                         let k = if r.chance(1, 10) { 0 } else { r.range(1, 3) };
                         (0..k)
                             .map(|_| {
-                                let input = gen_seq(r, g, 0, 2);
+                                let input = gen_rule_seq(r, g, true);
                                 let lookups = gen_records(r, kinds, input.len(), me);
-                                ChainRule { backtrack: gen_seq(r, g, 0, 2), input, lookahead: gen_seq(r, g, 0, 2), lookups }
+                                ChainRule { backtrack: gen_rule_seq(r, g, false), input, lookahead: gen_rule_seq(r, g, false), lookups }
                             })
                             .collect()
                     })
@@ -360,14 +379,9 @@ fn gen_subtable(r: &mut Rng, g: &G0, kind: Kind, kinds: &[Kind], me: usize) -> S
                             Some(
                                 (0..r.range(1, 3))
                                     .map(|_| {
-                                        let input: Vec<u16> = (0..r.range(0, 2)).map(|_| r.below(4) as u16).collect();
+                                        let input = gen_rule_classes(r, true);
                                         let lookups = gen_records(r, kinds, input.len(), me);
-                                        ChainRule {
-                                            backtrack: (0..r.range(0, 2)).map(|_| r.below(4) as u16).collect(),
-                                            input,
-                                            lookahead: (0..r.range(0, 2)).map(|_| r.below(4) as u16).collect(),
-                                            lookups,
-                                        }
+                                        ChainRule { backtrack: gen_rule_classes(r, false), input, lookahead: gen_rule_classes(r, false), lookups }
                                     })
                                     .collect(),
                             )
